@@ -374,7 +374,7 @@ Qed.
 
 (* the universe is not trivial: sizes, and both outcomes occur *)
 Example universe_sizes :
-  (length u_paths, length u_flags, length u_windows) = (783%nat, 36%nat, 49%nat).
+  (length u_paths, length u_flags, length u_windows) = (783%nat, 36%nat, 81%nat).
 Proof. vm_compute. reflexivity. Qed.
 
 Example accepted_example :
